@@ -1275,6 +1275,10 @@ def witness_cases():
         _w(_cls(attrs), emit=e)
         for attrs in (['a: Union[int, "Node"] = None'], ['a: int = 5', 'b: Annotated[int, "meters"] = 3'], ['a: Dict[str, "Node"] = None', 'b: Tuple[int, "Node"] = None'])
         for e in ("argparse", "class")
+    ] + [
+        # fixed corners: entries whose templated name is also the name of a builtin (a legal identifier: the template names the symbol, __all__ lists it)
+        _w(_cls(["a: int = 5"]).replace("class Alpha(", "class %s(" % nm), emit=e, tpl=tpl)
+        for nm, tpl in (("input", "{name}"), ("filter", "{name}"), ("filt", "{name}er"), ("type", "{name}")) for e in ("class", "argparse")
     ]
 
 
